@@ -91,7 +91,7 @@ func newKerxSubtable(table tables.KerxSubtable) (out KernSubtable) {
 	case tables.KerxData1:
 		out.Data = newKern1x(data)
 	case tables.KerxData2:
-		out.Data = Kern2(data)
+		out.Data = Kern2{KerxData2: data, isExtended: true}
 	case tables.KerxData4:
 		out.Data = newKern4(data)
 	case tables.KerxData6:
@@ -210,16 +210,23 @@ func newKern1x(k tables.KerxData1) Kern1 {
 	return Kern1{Values: k.Values, Machine: newAATStableTable(k.AATStateTableExt)}
 }
 
-type Kern2 tables.KerxData2
+type Kern2 struct {
+	tables.KerxData2
+	// isExtended is true for a 'kerx' subtable : the class values are indices in the kerning
+	// array (and KerningData starts after the 12 bytes of the subtable header); it is false
+	// for a 'kern' subtable : the class values are byte offsets from the start of the subtable
+	// (where KerningData starts)
+	isExtended bool
+}
 
 // convert from non extended to extended
 func newKern2(k tables.KernData2) Kern2 {
-	return Kern2{
+	return Kern2{KerxData2: tables.KerxData2{
 		Left:         tables.AATLoopkup8{AATLoopkup8Data: k.Left},
 		Right:        tables.AATLoopkup8{AATLoopkup8Data: k.Right},
 		KerningStart: tables.Offset32(k.KerningStart),
 		KerningData:  k.KerningData,
-	}
+	}}
 }
 
 func (kd Kern2) KernPair(left, right GID) int16 {
@@ -228,6 +235,14 @@ func (kd Kern2) KernPair(left, right GID) int16 {
 	}
 	l, _ := kd.Left.Class(tables.GlyphID(left))
 	r, _ := kd.Right.Class(tables.GlyphID(right))
+	if kd.isExtended {
+		const kerxHeaderSize = 12
+		index := int(kd.KerningStart) - kerxHeaderSize + 2*(int(l)+int(r))
+		if index < 0 || len(kd.KerningData) < index+2 {
+			return 0
+		}
+		return int16(binary.BigEndian.Uint16(kd.KerningData[index:]))
+	}
 	index := int(l) + int(r)
 	if len(kd.KerningData) < index+2 || index < int(kd.KerningStart) {
 		return 0
